@@ -1,4 +1,5 @@
 mod c03;
+mod c10;
 mod c15;
 mod c18;
 mod core;
@@ -19,6 +20,7 @@ macro_rules! dispatch {
     ($id:expr, $f:ident, $($arg:expr),*) => {
         match $id {
             "C03" => $f(&c03::C03, $($arg),*),
+            "C10" => $f(&c10::C10, $($arg),*),
             "C15" => $f(&c15::C15, $($arg),*),
             "C18" => $f(&c18::C18, $($arg),*),
             other => {
@@ -59,7 +61,7 @@ fn main() {
             }
         }
         "list" => {
-            println!("C03\nC15\nC18");
+            println!("C03\nC10\nC15\nC18");
         }
         "run" => {
             if args.len() < 3 {
